@@ -1,0 +1,89 @@
+//go:build verif
+
+package gbn
+
+// Verification hooks: exported wrappers around unexported pure functions and
+// a read-only snapshot of the window bookkeeping. Compiled only with
+// `-tags verif`; nothing here changes the behaviour of the package.
+
+// VerifContainsSequence exposes containsSequence.
+func VerifContainsSequence(base, top, seq uint8) bool {
+	return containsSequence(base, top, seq)
+}
+
+// VerifQueueResult is the observable outcome of one queue operation.
+type VerifQueueResult struct {
+	Base, Top uint8
+	Size      uint8
+	R1, R2    bool
+	Panicked  bool
+}
+
+// VerifQueueOp builds a queue with the given bookkeeping state, applies one
+// operation ("size", "add", "ack", "nack") and reports the resulting state.
+// A run-time panic inside the operation is recovered and reported.
+func VerifQueueOp(s, base, top uint8, op string, seq uint8) (res VerifQueueResult) {
+	defer func() {
+		if r := recover(); r != nil {
+			res = VerifQueueResult{Panicked: true}
+		}
+	}()
+
+	tm := NewTimeOutManager(nil)
+	q := newQueue(&queueCfg{
+		s:       s,
+		sendPkt: func(packet *PacketData) error { return nil },
+	}, tm)
+	q.sequenceBase = base
+	q.sequenceTop = top
+
+	switch op {
+	case "size":
+	case "add":
+		q.addPacket(&PacketData{})
+	case "ack":
+		res.R1 = q.processACK(seq)
+	case "nack":
+		res.R1, res.R2 = q.processNACK(seq)
+	default:
+		panic("unknown op")
+	}
+
+	res.Base = q.sequenceBase
+	res.Top = q.sequenceTop
+	if op == "size" {
+		res.Size = q.size()
+	}
+
+	return res
+}
+
+// VerifSyncerInit exposes (*syncer).initResendUpTo.
+func VerifSyncerInit(s, top uint8) (expACK, expNACK uint8, panicked bool) {
+	defer func() {
+		if r := recover(); r != nil {
+			panicked = true
+		}
+	}()
+
+	c := newSyncer(s, nil, NewTimeOutManager(nil), make(chan struct{}))
+	c.initResendUpTo(top)
+
+	return c.expectedACK, c.expectedNACK, false
+}
+
+// VerifSnapshot returns (n, s, base, top, recvSeq) of a live connection. It
+// takes the same locks the connection's own code takes for these fields;
+// recvSeq is owned by the receive goroutine and is only meaningful when read
+// at a quiescent point.
+func (g *GoBackNConn) VerifSnapshot() (n, s, base, top, recvSeq uint8) {
+	q := g.sendQueue
+	q.baseMtx.RLock()
+	base = q.sequenceBase
+	q.baseMtx.RUnlock()
+	q.topMtx.RLock()
+	top = q.sequenceTop
+	q.topMtx.RUnlock()
+
+	return g.cfg.n, q.cfg.s, base, top, g.recvSeq
+}
